@@ -4,9 +4,13 @@ from vlib import common as C
 from vlib import framework as F
 from vlib import streams, gen, history
 from checks.c01 import split_flags
+import os, sys
+sys.path.insert(0, os.path.join(C.VERIF, "extract"))
+import x9_asciipad
 
 ASSUMPTIONS = [
     "expected values come from the Lean model: Codec.Flat.put (proved in Props/C03) applied to the decoded RAW file, with caller-type -> field-type conversion by specConv (C06) and byte order by Bytes.Order (C01)",
+    "text encoding, gap padding: the fscanf loop of _GD_AsciiRead is modelled (Codec.TextScan) over the scan formats, conversion counts and padding line that extractor X9 re-reads from src/ascii.c on every run; TextPad.padding_reads_back proves the padding of any gap is read back in full for all 12 types (numbers modelled as [sign] digits [. digits]; inf/nan/exponent spellings are left to the differential run)",
     "text encoding: only appends and writes past the end (the property's own restriction); floating data written as text compared through the library's own read-back",
     "writes through RECIP, first-order POLYNOM, LINTERP and MPLEX are judged by invariants on the real library (the written window reads back, every RAW sample outside the window is untouched, MPLEX touches only samples whose index equals the count value) with exactly invertible data; PHASE, BIT/SBIT and one-field LINCOM also against the Lean model",
     "the library is built with hook H1 small buffers so that the out-of-place copy loop and codec windows are crossed",
@@ -189,7 +193,7 @@ def inverse_script(rng, enc):
 
 
 def run(ctx):
-    ok, lr, infos = F.lean_obligations(ctx, MODULES, [])
+    ok, lr, infos = F.lean_obligations(ctx, MODULES, [lambda: x9_asciipad.main(C.REPO)])
     gdmodel = C.build_gdmodel()
     try:
         harness = C.build_harness("gdh", ["gdh.c"], defines=history.SMALL_BUF_DEFINES)
